@@ -21,13 +21,15 @@ Stmts == {"x = 1", "  call f(a)", "s = 'a!b'", "s = \"c&d\"", "s = 'it''s'", "s 
 Blanks == {"", "   "}
 Comments == {"! note", "  ! 'quote", "!", "! & more", "!x y$"}
 Sentinels == {"!$omp parallel", "  !$acc loop", "!dir$ ivdep", "!$omp end parallel ! c", "!DIR$ IVDEP", "!Gcc$ unroll 4"}
-Starts == {"x = 1 + &", "x = 1 + & ! why", "call f(a, &", "s = 'abc&", "z = 3 &", "s = 'a!b&", "s = \"e!f&", "s = \"e!f\" // \"x&", "s = \"p // q &\" // &",
+Starts == {"s = 'a' &", "x = 1 + &", "x = 1 + & ! why", "call f(a, &", "s = 'abc&", "z = 3 &", "s = 'a!b&", "s = \"e!f&", "s = \"e!f\" // \"x&", "s = \"p // q &\" // &",
            "s = 'u ! v' // &"}
-Conts == {"  2", "& 2", "  & 2 + &", "    b)", "  &def'", "&   4 ! t", "  &c!d'", "  &g!h\"", "  &y\"", "  'w'"}
-Dirs == {"#if 1", "#ifdef X", "#else", "#endif", "#define X 1", "#  define Y \\", "  2", "#undef X", "# if defined(X) /* c */"}
+Conts == {"  // 'b' &", "  // 'c'", "  2", "& 2", "  & 2 + &", "    b)", "  &def'", "&   4 ! t", "  &c!d'", "  &g!h\"", "  &y\"", "  'w'"}
+Dirs == {"#if 1", "#ifdef X", "#else", "#endif", "#define X 1", "#  define Y \\", "  2", "#undef X", "# if defined(X) /* c */",
+         "#else ! isn't", "#ifdef X ! \"q"}
 
 Lines == IF Profile = "cont"
-         THEN {"s = 'abc&", "#ifdef X", "#endif", "! note", "  &def'", "x = 1 + &", "  2", "s = \"e!f&", "  &g!h\""}
+         THEN {"s = 'abc&", "#ifdef X", "#endif", "! note", "  &def'", "x = 1 + &", "  2", "s = \"e!f&", "  &g!h\"",
+               "s = 'a' &", "#else ! isn't", "  // 'b' &", "  // 'c'", "#ifdef X ! \"q"}
          ELSE IF Profile = "small"
          THEN {"x = 1", "s = 'a!b'", "s = \"c&d\"", "", "! note", "!$omp parallel", "!DIR$ IVDEP", "x = 1 + &", "  2", "& 2", "s = 'abc&",
                "  &def'", "#define X 1", "#  define Y \\", "print *, 'x' ! trailing", "  ! 'quote", "x = 1 + & ! why", "s = 'it''s'",
@@ -42,11 +44,11 @@ Add == /\ ~done /\ Len(text) < MaxLines
        /\ UNCHANGED done
 
 \* conditional directives must nest properly (a compiler rejects a stray #else/#endif)
-Opens == {"#if 1", "#ifdef X", "# if defined(X) /* c */"}
+Opens == {"#if 1", "#ifdef X", "# if defined(X) /* c */", "#ifdef X ! \"q"}
 RECURSIVE BalR(_, _, _)
 BalR(t, i, d) == IF i > Len(t) THEN d = 0
                  ELSE IF t[i] \in Opens THEN BalR(t, i + 1, d + 1)
-                 ELSE IF t[i] = "#else" THEN d > 0 /\ BalR(t, i + 1, d)
+                 ELSE IF t[i] \in {"#else", "#else ! isn't"} THEN d > 0 /\ BalR(t, i + 1, d)
                  ELSE IF t[i] = "#endif" THEN d > 0 /\ BalR(t, i + 1, d - 1)
                  ELSE BalR(t, i + 1, d)
 Balanced == BalR(text, 1, 0)
